@@ -165,6 +165,9 @@ class Flow:
             # payload of Ready / Some / Ok / Continue: the value "is" the wrapped computation
             if e[0] == 'variant' and e[2] in PAYLOAD_VARIANTS and el['f'] == 0:
                 return e[1]
+            # checked arithmetic (overflow-checks=on): `(a +? b).0` is the sum; the overflow flag `.1` feeds an Assert
+            if e[0] == 'bin' and e[1] in ('AddO', 'SubO', 'MulO') and el['f'] == 0:
+                return ('bin', e[1][:-1], e[2], e[3])
             # projecting a field out of a known aggregate: take the component
             if e[0] == 'agg':
                 for fn, fe in e[3]:
